@@ -258,8 +258,15 @@ def probes(ctx):
             for _ in range(nparam):
                 plist.append(dict(n=rng.uniform(1.2, 1.9), lo=-rng.choice([100.0, 2850.0]), hi=rng.choice([0.0, -20.0]),
                                   above=rng.choice([1.0, None]), below=rng.choice([None, 1.8])))
+            # integer-typed parameters (an air or vacuum layer written as UniformIce(1, ...)): Python ints
+            # must behave like the floats they denote, in the scalar and in the array branch
+            plist.append(dict(n=1, lo=-100, hi=0, above=1.0003, below=1.35))
+            plist.append(dict(n=2, lo=-2850, hi=-20, above=1, below=1.78))
         else:
             plist = [rand_params(rng, cls, default=True)] + [rand_params(rng, cls) for _ in range(nparam)]
+            # integer-typed parameters and range (n0=2, k=1, integer bounds and declared indices)
+            plist.append(dict(n0=2, k=1, a=0.0132, lo=-2850, hi=0, above=1, below=2))
+            plist.append(dict(n0=1.78, k=0.43, a=0.0132, lo=-200, hi=-20, above=1, below=3))
         for p in plist:
             if cls == "UniformIce":
                 obj = im.UniformIce(p["n"], valid_range=(p["lo"], p["hi"]), index_above=p["above"], index_below=p["below"])
@@ -271,6 +278,13 @@ def probes(ctx):
             tag = {"class": cls, "params": p}
             with np.errstate(all="ignore"):
                 # (1) scalar == array, bounds -> declared indices
+                zi = np.array(sorted({int(z) for z in zs if float(z).is_integer()} | {int(lo), int(hi), int(hi) + 7, int(lo) - 3}))
+                arr_i = np.asarray(obj.index(zi))
+                for i, z in enumerate(zi):
+                    s = float(obj.index(int(z)))
+                    if rx.ulp_diff(s, float(arr_i[i])) > 2:
+                        ctx.fail("index-scalar-intarray:%s:%r" % (cls, int(z)), "%s.index: integer-dtype depth array entry %r != scalar %r at z=%r (%s)" % (cls, float(arr_i[i]), s, int(z), p),
+                                 {"kind": "index_scalar_array", **tag, "z": int(z)})
                 arr = obj.index(zs)
                 for i, z in enumerate(zs):
                     s = float(obj.index(float(z)))
